@@ -493,12 +493,17 @@ func runC08(e *core.Env) error {
 		// compare only the hit/fetched/err class with the model (strip the model's payload)
 		e.Add(core.Case{Op: strings.Join(ops, "\n"), Impl: strings.Join(outs, "\n"), Nontrivial: true, Tags: []string{"client-fetch-count"}, Key: fmt.Sprintf("fc %d", maxreads), Detail: "class-only"})
 	}
-	// Latest: announcements in arbitrary order incl. regressions; results must be announced pairs
+	// Latest: announcements in arbitrary order incl. regressions; results must be announced pairs. Odd
+	// scenarios: the head arrives over the WEBSOCKET subscription (eth_subscribe newHeads) instead of the poller
 	for s := 0; s < e.N(10, 100); s++ {
 		rr := r.Fork()
 		c2 := simnode.NewChain(8, simnode.GenOpts{Salt: uint64(50 + s)})
 		n2 := simnode.NewNode(c2)
 		cl := jrpc2.New(n2.URL()).WithMaxReads(1 + rr.Intn(3)).WithPollDuration(time.Hour)
+		ws := s%2 == 1
+		if ws {
+			cl = cl.WithWSURL(n2.WSURL())
+		}
 		announced := map[string]bool{}
 		n2.SetAfter(func(ex *simnode.Exchange) {
 			for _, resp := range ex.Responses {
@@ -520,13 +525,37 @@ func runC08(e *core.Env) error {
 				})
 			default:
 				num, h, err := cl.Latest(ctx, n2.URL(), uint64(rr.Intn(10)))
+				for _, a := range n2.WSAnnounced() {
+					announced[a] = true
+				}
 				if err == nil && !announced[fmt.Sprintf("%d %x", num, h)] {
 					verdict = fmt.Sprintf("Latest returned (%d, %x) which the source never announced", num, h)
 				}
 			}
+			if ws && n2.Subscribers() > 0 {
+				// push what a node pushes: the new head after a change; sometimes an OLDER head again (a lagging
+				// backend behind a load balancer), sometimes the same height with the hash of the other fork
+				switch rr.Intn(5) {
+				case 0:
+					var b simnode.Block
+					n2.With(func(c *simnode.Chain) { b = c.Blocks[rr.Intn(len(c.Blocks))] })
+					n2.Announce(b.Num, b.Hash)
+				case 1:
+					var b simnode.Block
+					n2.With(func(c *simnode.Chain) { b = c.Blocks[len(c.Blocks)-1] })
+					n2.Announce(b.Num, simnode.Derive("otherfork", b.Num, uint64(i)))
+				default:
+					n2.AnnounceHead()
+				}
+				time.Sleep(2 * time.Millisecond)
+			}
 		}
+		subs := n2.Subscribers()
 		n2.Close()
-		e.Add(core.Case{Impl: verdict, Spec: "ok", Key: fmt.Sprintf("latest %d", s), Nontrivial: true, Tags: []string{"client-latest"}})
+		if ws && subs == 0 {
+			verdict = "the client never subscribed to newHeads over the websocket"
+		}
+		e.Add(core.Case{Impl: verdict, Spec: "ok", Key: fmt.Sprintf("latest %d", s), Nontrivial: true, Tags: []string{"client-latest", fmt.Sprintf("websocket=%v", ws)}})
 	}
 	return nil
 }
